@@ -233,3 +233,39 @@ package codescan
 //@ func contains
 //@ props C17
 //@ safety
+
+//@ func (*sectionedParser).Parse
+//@ props C17
+//@ safety
+//@ requires st != nil && vs_commentsOK(doc) && vs_taggersOK(st)
+//@ loop 1 invariant st != nil && vs_taggersOK(st)
+//@ loop 2 invariant st != nil && vs_taggersOK(st)
+//@ loop 3 invariant st != nil && vs_taggersOK(st)
+//@ loop 4 invariant st != nil
+
+//@ func (*sectionedParser).collectTitleDescription
+//@ props C17
+//@ safety
+//@ requires st != nil
+
+//@ func (*yamlSpecScanner).Parse
+//@ props C17
+//@ safety
+//@ requires sp != nil && vs_commentsOK(doc)
+
+//@ func (*yamlSpecScanner).UnmarshalSpec
+//@ props C17
+//@ safety
+//@ requires sp != nil && u != nil
+
+//@ func (*tagParser).Parse
+//@ props C17
+//@ safety
+//@ requires st != nil && st.Parser != nil
+
+//@ stable C17 yamlParser.set
+
+//@ func (*yamlParser).Parse
+//@ props C17
+//@ safety
+//@ requires y != nil && y.set != nil
